@@ -43,6 +43,9 @@ ASSUMPTIONS = [
     "index/diff.py:_diff visits every key of either index exactly once (C08); the model uses the flat union",
     "dvc_objects temp files '.<22 chars>.tmp' left beside a destination that os.replace refused are ignored by the walk (counted)",
     "link types limited to copy/hardlink/symlink (no reflink on this file system)",
+    "when a source is unavailable the entry is reported through onerror first; _chmod_files may then raise "
+    "FileNotFoundError out of apply for an executable entry that could not be created (os.stat outside the try): "
+    "modelled (o_raised), not judged - only the 'reported' clause of the property applies to unavailable data",
 ]
 
 IMPORTS = ("From Coq Require Import NArith List.\n"
@@ -499,9 +502,11 @@ def oracle(case, res):
             problems.append((f"C09:unavailable-not-reported:{kind}",
                              f"entry {k} has no available source, is not in place (workspace has {there!r}: "
                              f"X = dangling link) and was not passed to onerror"))
-    if res["raised"]:
-        sig = "C09:apply-raised:" + (res["raised"] if all_avail else "chmod-after-failed-create")
-        problems.append((sig, f"apply raised {res['raised']} (after onerror calls {res['errs']})"))
+    if res["raised"] and all_avail:
+        # (with an unavailable source the failure is reported first and _chmod_files may then raise on the
+        #  missing path: outside the property's clauses, see ASSUMPTIONS; modelled, not judged)
+        problems.append(("C09:apply-raised:" + res["raised"],
+                         f"apply raised {res['raised']} (after onerror calls {res['errs']})"))
     if all_avail:
         if res["errs"] and case["delete"]:
             problems.append(("C09:spurious-onerror", f"every source is available but onerror was called: {res['errs']}"))
@@ -718,14 +723,19 @@ def branch_items(ctx):
                         if typ == UNCHANGED and not relink:
                             continue  # `assert relink`
                         for delete in (False, True):
-                            ch = Change(typ, entry(so, "o"), entry(sn, "n"))
-                            co.idiff = lambda *a, _c=ch, **kw: iter([_c])
-                            d = co._compare(DataIndex(), DataIndex(), relink=relink, delete=delete)
-                            p = plan_keys(d)
-                            cj = {"branch": [typ, so, sn, relink, delete]}
-                            inp = (f"({cbool(relink)}, {cbool(delete)}, {codes[typ]}, {term(so, 'o')}, {term(sn, 'n')})")
-                            items.append((cj, inp, vplan(p)))
-                            ctx.count("branch:" + typ)
+                            for hn in ((False, True) if typ == DELETE else (False,)):
+                                ch = Change(typ, entry(so, "o"), entry(sn, "n"))
+                                co.idiff = lambda *a, _c=ch, **kw: iter([_c])
+                                new = DataIndex()
+                                if hn:  # the key of the change is an implicit node of new
+                                    new[("o", "z")] = DataIndexEntry(key=("o", "z"), meta=Meta())
+                                d = co._compare(DataIndex(), new, relink=relink, delete=delete)
+                                p = plan_keys(d)
+                                cj = {"branch": [typ, so, sn, relink, delete, hn]}
+                                inp = (f"({cbool(relink)}, {cbool(delete)}, {codes[typ]}, {term(so, 'o')}, "
+                                       f"{term(sn, 'n')}, {cbool(hn)})")
+                                items.append((cj, inp, vplan(p)))
+                                ctx.count("branch:" + typ)
     finally:
         co.idiff = saved
     return items
@@ -747,8 +757,8 @@ def run(ctx):
                    "nothing outside the target removed without delete, unavailable sources reported")
     ctx.correspond("checkout", IMPORTS, "case", "run_case", items, shard=120)
     b = branch_items(ctx)
-    ctx.correspond("branch", IMPORTS, "bool * bool * N * option ientry * option ientry",
-                   "fun i => match i with (r, d, t, o, n) => enc_branch r d t o n end", b, shard=300)
+    ctx.correspond("branch", IMPORTS, "bool * bool * N * option ientry * option ientry * bool",
+                   "fun i => match i with (r, d, t, o, n, h) => enc_branch r d t o n h end", b, shard=300)
 
 
 def replay_case(ctx, case):
